@@ -144,6 +144,10 @@ def handmade():
     L.append(inp("big-utf16", ss(BIG, top='<xsl:output encoding="UTF-16"/>'), doc(big_doc(70)), f=feat(utf16=True)))
     L.append(inp("big-text", ss('<xsl:template match="/"><w><xsl:for-each select="//item"><xsl:value-of select="concat(@id, \':\', ., \'&#10;\')"/></xsl:for-each></w></xsl:template>', top='<xsl:output method="text"/>'), doc(big_doc(70)), f=feat("text")))
     L.append(inp("exact-buffer-text", ss('<xsl:template match="/"><w><xsl:value-of select="//t"/></w></xsl:template>', top='<xsl:output method="text" encoding="ISO-8859-1"/>'), doc("<r><t>%s</t></r>" % ("0123456789abcdef" * 64)), f=feat("text", "iso-8859-1")))
+    # ---- the xml-stylesheet form with other xml-stylesheet instructions around the XSLT one (a CSS one first, an alternate after)
+    PIDOC = ('<?xml version="1.0"?>\n<?xml-stylesheet type="text/css" href="style.css"?>\n<!--c--><?other x?>\n%s\n<?xml-stylesheet type="text/css" href="late.css"?>\n'
+             '<r><a>1</a><b>2</b></r>\n' % PI)
+    L.append(inp("pi-among-other-stylesheet-pis", ss('<xsl:template match="/"><out pis="{count(/processing-instruction())}" first="{/processing-instruction()[1]}"><xsl:copy-of select="/r/*"/></out></xsl:template>'), PIDOC))
     # ---- inputs on which every form must fail
     L.append(inp("fail-terminate", ss('<xsl:template match="/"><out><a/><xsl:message terminate="yes">stop</xsl:message></out></xsl:template>'), doc("<r/>")))
     L.append(inp("fail-source-malformed", ss('<xsl:template match="/"><out/></xsl:template>'), '<?xml version="1.0"?>\n%s\n<r><a></r>\n' % PI))
